@@ -70,10 +70,11 @@ func analyse(goarch string, overlay map[string][]byte) (*core.Collector, error) 
 	c := core.NewCollector()
 	c.Count("module_packages", len(w.ByPath))
 	c.Count("module_functions", len(w.Fns))
-	ls := lockset.Analyze(w, rules.HandOverTagger)
+	ls := lockset.AnalyzeAtomic(w, rules.HandOverTagger, rules.AtomicMaps())
 	rules.LockOrder(w, ls, c)
 	rules.LockPair(w, ls, c)
 	rules.Guard(w, ls, c)
+	rules.Atomic(w, ls, c)
 	rules.RoEffect(w, ls, c)
 	rules.RunAll(w, c)
 	return c, nil
